@@ -326,6 +326,11 @@ fn scalar_method(name: &str, x: &str, args: &[Val]) -> Option<Val> {
     };
     match name {
         "clone" | "re" => r(x.to_string()),
+        // operator-trait methods written as method calls (`a.neg()`, `a.add(b)`, ...)
+        "neg" if args.is_empty() => r(format!("(-({x}))")),
+        "add" if args.len() == 1 => r(format!("({x} + {})", a0()?)),
+        "sub" if args.len() == 1 => r(format!("({x} - {})", a0()?)),
+        "mul" if args.len() == 1 => r(format!("({x} * {})", a0()?)),
         "recip" | "sqrt" | "cbrt" | "exp" | "exp2" | "ln" | "log2" | "log10" | "sin" | "cos" | "tan" | "asin" | "acos" | "atan"
         | "sinh" | "cosh" | "tanh" | "asinh" | "acosh" | "atanh" | "abs" | "signum" => r(format!("{name}_r({x})")),
         "exp_m1" => r(format!("expm1_r({x})")),
@@ -1235,6 +1240,24 @@ impl<'a> Ev<'a> {
     }
 
     fn method_on(&mut self, recv: Val, name: &str, args: Vec<Val>) -> R<Val> {
+        // operator-trait methods written as method calls: `a.neg()`, `a.add(b)`, `a.mul(b)`, ... are the operators
+        if name == "neg" && args.is_empty() {
+            return self.neg(recv);
+        }
+        if args.len() == 1 {
+            let op = match name {
+                "add" => Some(("Add", "+")),
+                "sub" => Some(("Sub", "-")),
+                "mul" => Some(("Mul", "*")),
+                "div" => Some(("Div", "/")),
+                _ => None,
+            };
+            if let Some((tr, sym)) = op {
+                let mut args = args;
+                let rhs = args.remove(0);
+                return self.binop(tr, sym, recv, rhs);
+            }
+        }
         let recv_s = strip_ref(recv.clone());
         match recv_s {
             Val::Real(x) => {
